@@ -8,6 +8,7 @@ package pongo2
 
 import (
 	"errors"
+	"fmt"
 	"time"
 )
 
@@ -133,6 +134,20 @@ func c08Universe() *c08U {
 		"doc2": c08Doc2{c08mid{C08Pub{u.s1}}, u.sk},
 		"nemb": c08NilEmb{nil, u.sk},
 		"kf":   "Title",
+		"fnstr": func(s fmt.Stringer) string {
+			if s == nil {
+				return "nil"
+			}
+			return s.String()
+		},
+		"fnany": func(a any) string {
+			if a == nil {
+				return "nil"
+			}
+			return "any"
+		},
+		"fnptr": func(p *c08Struct) int { return p.PtrMeth() },
+		"many":  map[any]string{1: u.s0, "k": u.s1},
 		"nv":   (*Value)(nil), "fnnil": func() *Value { return nil }, "vals": []*Value{AsValue(u.s0), nil},
 	}
 	return u
@@ -205,6 +220,15 @@ func (u *c08U) cases() []c08Case {
 		ok("doc.C08Pub.Tag", u.s1), ok("doc.Name", u.s2), ok("doc.N", itoa(u.i1)), ok("doc.Caption", "C"+u.s0), ok("doc.c08base", ""), ok("doc.c08base.Title", ""),
 		ok("pdoc.Title", u.s0), ok("pdoc.Name", u.s2), ok("pdoc.Tag", u.s1), ok("pdoc[ks]", ""), ok("doc2.Tag", u.s1), ok("doc2.Body", u.sk), ok("doc2.c08mid.Tag", ""),
 		ok("nv", ""), ok("nv.x", ""), ok("fnnil()", ""), ok("fnnil", ""), ok("vals.0", u.s0), ok("vals.1", ""), ok("fnval(nv)", "1"),
+		// interface-typed and pointer-typed parameters; keys that cannot be map keys
+		ok("fnstr(sg)", "S3"), er("fnstr(i)"), er("fnstr(str)"), ok("fnstr(nilv)", "nil"), ok("fnany(i)", "any"), ok("fnany(nilv)", "nil"), ok("fnany(l)", "any"),
+		ok("fnptr(pst)", itoa(u.n+1)), ok("fnptr(nilp)", "-1"), er("fnptr(st)"), er("fnptr(i)"),
+		okf("many[k]", func() string {
+			if u.k == 1 {
+				return u.s0
+			}
+			return ""
+		}), ok("many.k", u.s1), ok("many[l]", ""), ok("many[m]", ""), ok("many[fn0]", ""), ok("mi[l]", ""), ok("m[l]", ""), ok("many[arr]", ""),
 		ok("nemb.Body", u.sk), ok("nemb.Name", ""), ok("nemb.c08Inner", ""),
 	}
 }
